@@ -3,7 +3,7 @@ import os
 
 from vlib import core, coord_common, e2e
 
-MODS = ['S4V.Props.C06', 'S4V.Props.CoordSpec']
+MODS = ['S4V.Props.C06', 'S4V.Props.CoordSpec', 'S4V.Props.CoordSkelSpec', 'S4V.Props.CoordSkelMutants']
 LEVEL_NOTE = ("Proved: the coordinator's output for every schedule is merge(scripts) (confluence), and merge keeps each source's order "
               "(merge_per_source), always emits a minimum over all current heads with lower PathIds strictly later (minHead_spec), is sorted when every source "
               "is (merge_sorted) and orders equal instants by PathId (merge_ties). Instants are Int nanoseconds, as DateTime<FixedOffset>::cmp compares; that the source picks with `iter_mut().min_by(|x, y| x.1.0.dt().cmp(y.1.0.dt()))` over a BTreeMap keyed "
